@@ -205,3 +205,11 @@ package utils
 //@   attr split gf.Size 16 64 256 1024 4096
 //@   requires gfOK(gf) && 0 <= a && a < gf.Size && 1 <= b && b < gf.Size
 //@   ensures result0 == result1
+
+// ---------------------------------------------------------------- runeint
+//@ func RuneToInt
+//@   ensures ('0' <= r && r <= '9') ==> result == r - '0'
+//@   ensures !('0' <= r && r <= '9') ==> result == -1
+//@ func IntToRune
+//@   ensures (0 <= i && i <= 9) ==> result == i + '0'
+//@   ensures !(0 <= i && i <= 9) ==> result == 'F'
